@@ -134,8 +134,11 @@ structure Column where
 /-- `Column.flexible`: `self.ratio is not None`. -/
 def Column.flexible (c : Column) : Bool := c.ratio.isSome
 
-/-- Code-variant flags (`true` = rich 9.10.0 as found, `false` = minimally repaired; all six are repaired in /repo:
-`fix:` commits dd342b5, c798468, b5d172f, 1d61bac, ab98098, f955c6c, in the order of the fields).
+/-- Code-variant flags (`true` = rich 9.10.0 as found, `false` = minimally repaired; all seven are repaired in /repo:
+`fix:` commits dd342b5, c798468, b5d172f, 1d61bac, ab98098, f955c6c, 75c2776, in the order of the fields).
+* `flexClampZero` (read only when `flexNegative = false`): `true` = the clamp `max(0, width)` that fix ab98098 put on the
+  flexible widths, which hands a `ratio=0` column no cell (the re-measure then gives one back and the expanding table is one
+  cell too wide); `false` = since fix 75c2776 every flexible column keeps its minimum, `max(minimum, width)`.
 * `leadingRepeat`: `_render` emits `get_row(widths, "mid") * leading` as ONE line (F16);
   repaired: `leading` separate blank separator lines.
 * `minWidthCapsExpand`: in `_calculate_column_widths` the pad target is `min(min_width - extra, max_width)`
